@@ -1,48 +1,69 @@
 (* C09 — Membership changes: one at a time, configuration is a function of the applied log.
    Only pinned statements (+ non-vacuity examples); proofs live in M/RaftProofsC09.v.
 
-   PROVED here (all per-step statements hold for EVERY state r / message m; the only
-   hypotheses are the ones written in each theorem):
-   * propose_filter, one_conf_per_proposal: what the MsgPropose filter of step_leader does
-     to each entry of a proposal (kept / replaced by an empty normal entry / proposal
-     dropped), what it does to pending_conf_index, and that at most one membership-change
-     entry survives per proposal.
-   * pending_covers as the invariant ConfBound ("every membership-change entry held by
-     the log above applied has index <= pending_conf_index"): established by
-     become_leader (under LogBounded, see below), preserved by the leader's MsgPropose
-     path, by commit_apply (including the auto-leave append), and by every other API
-     function of the node model while the node is leader (step, tick, on_persist_*,
-     raft_apply_conf_change, ...): theorems C09_*_keeps_bound / C09_leader_bound_*.
-     Hence: the entries a leader appends during its leadership contain at most one
-     membership-change entry above applied (one_pending_own of DESIGN.md).
-   * hup_guard / hup_blocked / scan_conf_false / scan_conf_true: hup campaigns only when
-     has_unapplied_conf_changes answered false over (applied or pending snapshot, committed],
-     and what that answer means in terms of the pages slice returned.
-   * candidate_stepdown (+ complete case analysis of maybe_commit_by_vote).
-   * not_promotable_quiet: tick / tick_election / MsgTimeoutNow (through step_follower and
-     through step in every role and term) never start a campaign when promotable = false;
-     promotable_iff_voter after post_conf_change, raft_apply_conf_change, restore.
-   * apply_conf_change_err_untouched, apply_conf_change_conf: the new configuration is
-     ConfChange.apply_conf_change (previous configuration, tracked ids, change);
-     restore_true: after a snapshot restore the configuration is ConfChange.restore of
-     the snapshot's ConfState.
+   PROVED here (every per-step statement holds for EVERY state r / node n and EVERY
+   message or input; the only hypotheses are the ones written in each theorem):
+   * propose_filter, one_conf_per_proposal, pending_blocks_proposal, propose_sets_pending:
+     what the MsgPropose filter of step_leader does to each entry of a proposal (kept /
+     replaced by an empty normal entry / proposal dropped), what it does to
+     pending_conf_index, and that at most one membership-change entry survives per proposal
+     (none while one is pending).  propose_spec: the whole MsgPropose path of step_leader.
+   * pending_covers, as the invariant ConfBound ("every membership-change entry held by the
+     log - unstable or stored - above applied has index <= pending_conf_index"):
+     established by become_leader (become_leader_pending / _covers / _covers_persisted),
+     preserved by the leader's MsgPropose path and by commit_apply including the auto-leave
+     append (autoleave_sets_pending is part of commit_apply_spec), and kept, as
+     "role = Leader -> ConfBound", by EVERY API function of the Raft model (step, tick,
+     commit_apply, raft_apply_conf_change, on_persist_entries, on_persist_snap,
+     load_state, request_snapshot, ping, adjust_max_inflight_msgs,
+     maybe_free_inflight_buffers, set_max_apply_unpersisted_log_limit,
+     enable_group_commit, assign_commit_groups) and by every function of the RawNode
+     model (C09_leader_bound_*).  The only hypothesis, needed where an election can be won
+     inside the call, is "last_index = persisted -> LogBounded" on the pre-state log;
+     C09_RepInv_gives_bound derives it from C14's RaftLog invariant when no snapshot is
+     pending.  Consequence (one_pending_own of DESIGN.md): while applied <
+     pending_conf_index no membership change passes the filter, and every
+     membership-change entry above applied is at or below pending_conf_index.
+   * hup_spec / hup_guard / hup_blocked, has_unapplied_spec, scan_conf_false / _true,
+     has_unapplied_true_witness: hup campaigns only after has_unapplied_conf_changes
+     answered false on (applied or pending snapshot, committed]; what the answer means in
+     terms of the pages slice returned; a positive answer exhibits a real log entry.
+     step_campaign_guard: through Raft::step a node ends up (pre-)candidate only if nothing
+     started, or a pre-candidate won its pre-vote, or hup ran after a negative scan.
+   * candidate_stepdown and the complete case analysis maybe_commit_by_vote_spec.
+   * not_promotable_quiet: tick_election, tick, MsgTimeoutNow through step_follower and
+     through step in every role and message term never start a campaign when
+     promotable = false.  promotable_iff_voter after post_conf_change, hence after
+     raft_apply_conf_change (apply_conf_change_conf) and restore (restore_true).
+   * apply_conf_change_err_untouched, apply_conf_change_conf, apply_conf_change_spec: the
+     new configuration is ConfChange.apply_conf_change (previous configuration, tracked
+     ids, change), an error leaves the node untouched.  restore_true: after a snapshot
+     restore the configuration is ConfChange.restore of the snapshot's ConfState;
+     restore_false: a refused snapshot leaves configuration and promotable alone.
    * auto_leave_once.
 
    NOT proved here (listed honestly):
-   * one_pending_log, the full first clause "a leader's WHOLE log never holds more than one
-     membership-change entry beyond applied": needs the protocol level (entries inherited
-     from earlier leaders: K3 + Ready-atomic durability).  What is proved is the mechanism:
-     ConfBound + the filter refusing while applied < pending_conf_index.
-   * LogBounded (no entry beyond last_index) is a hypothesis of the become_leader
-     theorems; it is a consequence of RaftLog well-formedness (C14), not proved here, and
-     it cannot hold for arbitrary incoming messages (non-consecutive entries).
+   * one_pending_log, the first clause read literally ("a leader's WHOLE log never holds
+     more than one membership-change entry beyond its applied index"): it is a protocol
+     level statement about entries inherited from earlier leaders, and read literally it is
+     not true of a node whose applied index lags (Example C09_whole_log_can_hold_two: the
+     mechanism then blocks new changes until applied reaches pending_conf_index).
+   * LogBounded itself is not proved as an invariant of the node model (it cannot hold for
+     arbitrary incoming messages); it is a hypothesis, dischargeable from C14's RepInv
+     (C09_RepInv_gives_bound) when no snapshot is pending.  With a pending snapshot the
+     store may hold stale entries above last_index and the hypothesis is simply assumed.
+   * That a NEGATIVE answer of has_unapplied_conf_changes means "no membership-change
+     entry with index in the window" needs slice correctness (C14 slice_abs, currently not
+     in the build); here the answer is characterised by the pages slice returned.
    * conf_function, the cross-node clause "nodes at the same applied index have identical
      configurations, also after restart": protocol level (P phase 2, K1 + C01 + C12).
-     Proved here is only its per-node building block (apply_conf_change_conf, restore_true).
-   * The model has no Raft::new; "promotable <=> voter after new" is not stated.
-   * hup_guard is about what has_unapplied_conf_changes ANSWERED; that a false answer
-     means "no membership-change entry with index in the window" additionally needs
-     slice correctness (C14). *)
+     Proved here is only its per-node building block (apply_conf_change_spec, restore_true).
+   * The model has no Raft::new, so "promotable <=> voter after new" is not stated.
+
+   OBSERVATION (Example C09_dropped_proposal_raises_pending; same in raft.rs): a proposal
+   that is DROPPED (uncommitted-size limit, or a later entry fails to decode) may already
+   have raised pending_conf_index; the next valid membership proposal is then answered Ok
+   but replaced by an empty normal entry. *)
 From RV Require Import Base.Prelude Base.IdSet M.Util M.Proto M.MemStorage M.Progress M.RaftLog
   M.ConfChange M.Msg M.Raft M.RawNode M.RaftProofs M.RaftProofsC09.
 From RecordUpdate Require Import RecordSet.
@@ -193,6 +214,29 @@ Example C09_propose_example :
       = [(4, true); (5, false); (6, false)].
 Proof. eexists. split; [vm_compute; reflexivity|]. vm_compute. split; reflexivity. Qed.
 
+(* Observation (behaviour of the real code as well, raft.rs step_leader MsgPropose: the
+   filter loop assigns pending_conf_index before append_entry / before a later decode
+   error): a DROPPED proposal can still raise pending_conf_index.  Nothing is appended,
+   yet has_pending_conf becomes true; the next (valid) membership proposal is then
+   accepted with E_OK but silently replaced by an empty normal entry. *)
+Example C09_dropped_proposal_raises_pending :
+  (exists r1, step_leader C09Samples.s_leader_full C09Samples.s_prop1 = Ok (r1, E_PROPOSAL_DROPPED) /\
+     r_log r1 = r_log C09Samples.s_leader_full /\
+     has_pending_conf C09Samples.s_leader_full = false /\ has_pending_conf r1 = true /\
+     r_pending_conf_index r1 = 4 /\
+     exists r2, step_leader r1 C09Samples.s_prop1 = Ok (r2, E_OK) /\
+       map (fun e => (e_index e, e_type e, e_data e)) (u_entries (unst (r_log r2)))
+         = [(4, EntryNormal, [])]) /\
+  (exists r1, step_leader C09Samples.s_leader C09Samples.s_prop_bad = Ok (r1, E_PROPOSAL_DROPPED) /\
+     r_log r1 = r_log C09Samples.s_leader /\ r_pending_conf_index r1 = 4).
+Proof.
+  split.
+  - eexists. split; [vm_compute; reflexivity|]. split; [reflexivity|]. split; [reflexivity|].
+    split; [reflexivity|]. split; [reflexivity|].
+    eexists. split; [vm_compute; reflexivity|]. vm_compute. reflexivity.
+  - eexists. split; [vm_compute; reflexivity|]. split; reflexivity.
+Qed.
+
 (* commit_apply: complete description, preservation of the bound, auto-leave *)
 Theorem C09_commit_apply_spec :
   forall r app skip r',
@@ -247,21 +291,49 @@ Example C09_auto_leave_example :
       = [(4, EntryConfChangeV2, [])].
 Proof. eexists. split; [vm_compute; reflexivity|]. vm_compute. repeat split. Qed.
 
+(* the same with the hypothesis in the form the invariant theorems use: the bound on the
+   log is needed only if the log is fully persisted (become_leader asserts that) *)
+Theorem C09_become_leader_covers_persisted :
+  forall r r', become_leader r = Ok r' ->
+    (last_index (r_log r) = persisted (r_log r) -> LogBounded (r_log r)) ->
+    ConfBound r' /\ r_state r' = Leader.
+Proof. exact become_leader_ConfBound'. Qed.
+Print Assumptions C09_become_leader_covers_persisted.
+
+(* ... and that hypothesis follows from the RaftLog representation invariant of C14
+   (M/RaftLogProofs.v) when no snapshot is pending *)
+Theorem C09_RepInv_gives_bound :
+  forall rw l, RaftLogProofs.RepInv rw l -> u_snapshot (unst l) = None ->
+    (last_index l = persisted l -> LogBounded l).
+Proof. exact RepInv_LBP. Qed.
+Print Assumptions C09_RepInv_gives_bound.
+
+(* ConfBound covers in particular the logical log of C14 *)
+Theorem C09_ConfBound_logical :
+  forall r, ConfBound r ->
+  forall e, In e (RaftLogProofs.ll_ents (RaftLogProofs.abs (r_log r))) ->
+    is_conf_entry e = true -> applied (r_log r) < e_index e ->
+    e_index e <= r_pending_conf_index r.
+Proof. exact ConfBound_logical. Qed.
+Print Assumptions C09_ConfBound_logical.
+
 (* ------------------------------------------------------------------ *)
 (* the leader invariant "r_state r = Leader -> ConfBound r" is kept by EVERY API function
-   of the node model.  LogBounded of the pre-state is needed only where an election can
+   of the node model.  The bound on the pre-state log is needed only where an election can
    be won inside the call (become_leader sets pending_conf_index := last_index). *)
 
 Theorem C09_leader_bound_step :
   forall r m r' c,
-  step r m = Ok (r', c) -> LogBounded (r_log r) ->
+  step r m = Ok (r', c) ->
+  (last_index (r_log r) = persisted (r_log r) -> LogBounded (r_log r)) ->
   (r_state r = Leader -> ConfBound r) -> (r_state r' = Leader -> ConfBound r').
 Proof. exact step_LInv. Qed.
 Print Assumptions C09_leader_bound_step.
 
 Theorem C09_leader_bound_tick :
   forall r r' b,
-  tick r = Ok (r', b) -> LogBounded (r_log r) ->
+  tick r = Ok (r', b) ->
+  (last_index (r_log r) = persisted (r_log r) -> LogBounded (r_log r)) ->
   (r_state r = Leader -> ConfBound r) -> (r_state r' = Leader -> ConfBound r').
 Proof. exact tick_LInv. Qed.
 Print Assumptions C09_leader_bound_tick.
@@ -307,15 +379,16 @@ Proof. exact misc_api_LInv. Qed.
 Print Assumptions C09_leader_bound_misc_api.
 
 (* LInv r := r_state r = Leader -> ConfBound r;  RInv n := LInv (rn_raft n);
-   RB n := LogBounded (r_log (rn_raft n)) *)
+   RB n := LBP (r_log (rn_raft n)), LBP l := last_index l = persisted l -> LogBounded l *)
 Theorem C09_LInv_def : forall r, LInv r <-> (r_state r = Leader -> ConfBound r).
 Proof. intros r. unfold LInv. reflexivity. Qed.
 Print Assumptions C09_LInv_def.
 
 Theorem C09_RInv_def :
   forall n, (RInv n <-> (r_state (rn_raft n) = Leader -> ConfBound (rn_raft n))) /\
-            (RB n <-> LogBounded (r_log (rn_raft n))).
-Proof. intros n. unfold RInv, RB, LInv. split; reflexivity. Qed.
+            (RB n <-> (last_index (r_log (rn_raft n)) = persisted (r_log (rn_raft n)) ->
+                       LogBounded (r_log (rn_raft n)))).
+Proof. intros n. unfold RInv, RB, LInv, LBP. split; reflexivity. Qed.
 Print Assumptions C09_RInv_def.
 
 (* the whole RawNode API *)
@@ -350,6 +423,29 @@ Proof.
         (conj rn_transfer_leader_RInv rn_read_index_RInv)))))))))))))))))).
 Qed.
 Print Assumptions C09_leader_bound_rawnode.
+
+(* non-vacuity: a concrete leader satisfies the hypotheses, and after a proposal the
+   invariant is tight (the surviving membership change sits exactly at pending_conf_index) *)
+Example C09_leader_bound_example :
+  LogBounded (r_log C09Samples.s_leader) /\ ConfBound C09Samples.s_leader /\
+  r_state C09Samples.s_leader = Leader /\
+  exists r', step C09Samples.s_leader C09Samples.s_prop = Ok (r', E_OK) /\
+    r_state r' = Leader /\ ConfBound r' /\
+    exists e, In e (u_entries (unst (r_log r'))) /\ is_conf_entry e = true /\
+              applied (r_log r') < e_index e /\ e_index e = r_pending_conf_index r'.
+Proof.
+  assert (Hb : LogBounded (r_log C09Samples.s_leader)).
+  { intros e [H|H]; vm_compute in H; [contradiction|].
+    repeat destruct H as [H|H]; try contradiction; subst e; vm_compute; discriminate. }
+  assert (Hc : ConfBound C09Samples.s_leader).
+  { intros e [H|H] Hcf Ha; vm_compute in H; [contradiction|].
+    repeat destruct H as [H|H]; try contradiction; subst e; vm_compute in Hcf; discriminate. }
+  split; [exact Hb|]. split; [exact Hc|]. split; [reflexivity|].
+  eexists. split; [vm_compute; reflexivity|]. split; [reflexivity|]. split.
+  - refine (C09_leader_bound_step C09Samples.s_leader C09Samples.s_prop _ E_OK _ (fun _ => Hb)
+              (fun _ => Hc) _); [vm_compute; reflexivity|reflexivity].
+  - eexists. split; [left; reflexivity|]. vm_compute. repeat split.
+Qed.
 
 (* Observation (not a defect of the mechanism, but of the literal wording of the first
    clause): a leader's WHOLE log can hold two membership-change entries above its own
@@ -500,6 +596,17 @@ Theorem C09_candidate_stepdown :
 Proof. exact candidate_stepdown. Qed.
 Print Assumptions C09_candidate_stepdown.
 
+Example C09_candidate_stepdown_example :
+  (exists l', RaftLog.maybe_commit (r_log C09Samples.s_candidate_cc) 3 1 = Ok (l', true) /\
+     has_unapplied_conf_changes (C09Samples.s_candidate_cc <| r_log := l' |>) 3 4 = Ok true) /\
+  (exists r', step C09Samples.s_candidate_cc C09Samples.s_vresp = Ok (r', E_OK) /\
+     r_state r' = Follower /\ r_term r' = 2).
+Proof.
+  split.
+  - eexists. split; [vm_compute; reflexivity|]. vm_compute. reflexivity.
+  - eexists. split; [vm_compute; reflexivity|]. vm_compute. split; reflexivity.
+Qed.
+
 (* ================================================================== *)
 (* 5. promotable *)
 
@@ -608,6 +715,11 @@ Theorem C09_restore_true :
     r_state r' = Follower /\ r_state r = Follower.
 Proof. exact restore_true_spec. Qed.
 Print Assumptions C09_restore_true.
+
+Example C09_restore_example :
+  exists r', restore C09Samples.s_follower C09Samples.s_snap = Ok (r', true) /\
+    conf_of r' = mkConf [2; 3; 4] [] [1] [] false /\ r_promotable r' = false.
+Proof. eexists. split; [vm_compute; reflexivity|]. vm_compute. split; reflexivity. Qed.
 
 Theorem C09_restore_false :
   forall r s r',
